@@ -26,19 +26,23 @@ Confluent == c.kind = "path" => LET p == c.p d == Len(p) IN
                   /\ (r # ERR => r = Pub(Priv(p, d)))
 \* ---------------------------------------------------------------- scenarios (operation lists; result of operation #i is register #i)
 Op1(name) == [op |-> name]
-PathOps(p) ==
+\* tw = <<>>: the path starts at a root the library generated; tw = <<byte, mask>>: at that root imported with bits or-ed in
+\* (register numbers below are relative to the start register s0)
+PathOpsFrom(p, tw) ==
   LET d == Len(p)
-      chain == <<[op |-> "root", i |-> 1]>> \o [j \in 1..d |-> [op |-> "derive", a |-> j, ix |-> p[j]]]               \* registers 1..d+1: levels 0..d
+      s0 == IF tw = <<>> THEN 0 ELSE 1
+      pre == IF tw = <<>> THEN <<[op |-> "root", i |-> 1]>> ELSE <<[op |-> "root", i |-> 1], [op |-> "tweak", a |-> 1, byte |-> tw[1], mask |-> tw[2]]>>
+      chain == pre \o [j \in 1..d |-> [op |-> "derive", a |-> s0 + j, ix |-> p[j]]]               \* registers s0+1..s0+d+1: levels 0..d
       \* for level j (register j+1): pub, then dpub along the rest until the first hardened index (inclusive: it must be refused)
       RECURSIVE Pubs(_,_)
       Pubs(j, acc) == IF j > d THEN acc ELSE
           LET start == Len(acc) + 1
               stopAt == IF \E q \in (j+1)..d : p[q].hard THEN CHOOSE q \in (j+1)..d : p[q].hard /\ \A q2 \in (j+1)..(q-1) : ~p[q2].hard ELSE d
               steps == [q \in 1..(stopAt - j) |-> [op |-> "dpub", a |-> start + q - 1, ix |-> p[j + q]]] IN
-          Pubs(j + 1, acc \o <<[op |-> "pub", a |-> j + 1]>> \o steps)
+          Pubs(j + 1, acc \o <<[op |-> "pub", a |-> s0 + j + 1]>> \o steps)
       withPubs == Pubs(0, chain)
       n == Len(withPubs)
-      leaf == d + 1
+      leaf == s0 + d + 1
       msg == <<1, 2, 3>>
       h == [i \in 1..32 |-> i] IN
   withPubs \o << [op |-> "raw", a |-> leaf], [op |-> "topub", a |-> n + 1], [op |-> "pub", a |-> leaf], [op |-> "rawpub", a |-> n + 3],
@@ -89,8 +93,12 @@ EmipOps(pl, dl) ==
         [op |-> "decrypt", a |-> 1, pw |-> pw, flip |-> LET S == {0, 31, 32, 43, 44, 59, 60, total - 1} \cap 0..(total - 1) IN CHOOSE x \in S : Cardinality({y \in S : y < x}) = q - 1]]
   \o << [op |-> "encrypt", pw |-> pw, salt |-> SubSeq(salt, 1, 31), nonce |-> nonce, data |-> data], [op |-> "encrypt", pw |-> pw, salt |-> salt, nonce |-> nonce \o <<1>>, data |-> data],
         [op |-> "encrypt", pw |-> <<>>, salt |-> salt, nonce |-> nonce, data |-> data] >>
-Cases == {[kind |-> "path", p |-> p] : p \in Paths} \cup {[kind |-> "matrix"], [kind |-> "codec"]} \cup {[kind |-> "emip3", pl |-> pl, dl |-> dl] : pl \in PwLens, dl \in DataLens}
+PathOps(p) == PathOpsFrom(p, <<>>)
+\* imported keys: bits of the scalar's top byte (index 31, 0-based) and of the chain code that a generated key never has set
+Tweaks == {<<31, 32>>, <<31, 128>>, <<0, 7>>, <<70, 255>>}
+ShortPaths == UNION {[1..d -> Ixs] : d \in 1..2}
+Cases == {[kind |-> "path", p |-> p] : p \in Paths} \cup {[kind |-> "tpath", p |-> p, tw |-> t] : p \in ShortPaths, t \in Tweaks} \cup {[kind |-> "matrix"], [kind |-> "codec"]} \cup {[kind |-> "emip3", pl |-> pl, dl |-> dl] : pl \in PwLens, dl \in DataLens}
 Init == c \in Cases
 Next == UNCHANGED c
-EmitScn == Emit([t |-> "SCN", ops |-> CASE c.kind = "path" -> PathOps(c.p) [] c.kind = "matrix" -> MatrixOps [] c.kind = "codec" -> CodecOps [] OTHER -> EmipOps(c.pl, c.dl)])
+EmitScn == Emit([t |-> "SCN", ops |-> CASE c.kind = "path" -> PathOps(c.p) [] c.kind = "tpath" -> PathOpsFrom(c.p, c.tw) [] c.kind = "matrix" -> MatrixOps [] c.kind = "codec" -> CodecOps [] OTHER -> EmipOps(c.pl, c.dl)])
 ====
